@@ -197,3 +197,8 @@ func termOf(v Value) *smt.Term {
 	}
 	return t
 }
+
+// SplitValuesV is the summarised result of css.splitValues(X): the list of
+// comma separated, trimmed, lower-cased parts of X, of any length. It may only
+// flow into the summarised css.in.
+type SplitValuesV struct{ X *smt.Term }
